@@ -173,8 +173,10 @@ func (vc *VC) streamConsts() {
 		return
 	}
 	vc.declared["g_S"] = true
+	p0 := vc.ghostInit("$pos")
 	vc.decls = append(vc.decls, "(declare-const g_S (Array Int (_ BitVec 8)))", "(declare-const g_N Int)",
-		"(declare-const g_Ttag Int)", "(declare-const g_Tval Int)", "(assert (and (> g_Ttag 0) (>= g_Tval 0)))")
+		"(declare-const g_Ttag Int)", "(declare-const g_Tval Int)", "(assert (and (> g_Ttag 0) (>= g_Tval 0)))",
+		fmt.Sprintf("(assert (and (<= 0 %s) (<= %s g_N)))", p0, p0))
 }
 
 func (fr *Frame) ghostGet(name string) string {
